@@ -875,13 +875,9 @@ Inductive rd_result := RdDoc (d : rd_doc) | RdOutside (code : N) (w : list rd_w)
 (* an object stream whose filters the model does not decode was met: the model abstains *)
 Definition rd_is_undecodable (w : rd_w) : bool := match w with RdW_exc 7 => true | _ => false end.
 
-Definition rd_view (file0 : list N) : rd_result :=
-  (* header; OffsetInputSource *)
-  let '(shift, version, w0) := match rd_find_header 1024 file0 0 with
-                               | Some (p, v) => (p, v, [])
-                               | None => (0, [49; 46; 50], [RdW_header])
-                               end in
-  let file := rd_at file0 shift in
+(* everything after the header search: [file] is the input as the OffsetInputSource presents it (offset 0 = the header) *)
+Definition rd_view_at (version : list N) (w0 : list rd_w) (file : list N) : rd_result :=
+  let shift := 0 in
   let end_off := rd_len file in
   let max_id := N.min 2147483646 (end_off / 3) in
   let start := if 1054 <? end_off then end_off - 1054 else 0 in
@@ -957,4 +953,17 @@ Definition rd_view (file0 : list N) : rd_result :=
               end
           end
       end
+  end.
+
+Definition rd_set_shift (k : N) (r : rd_result) : rd_result :=
+  match r with
+  | RdDoc d => RdDoc (mkRdDoc (rdd_version d) k (rdd_trailer d) (rdd_tbl d) (rdd_items d) (rdd_warn d))
+  | other => other
+  end.
+
+(* Objects::parse: header anywhere in the first 1024 bytes; every offset is then counted from the header *)
+Definition rd_view (file0 : list N) : rd_result :=
+  match rd_find_header 1024 file0 0 with
+  | Some (p, v) => rd_set_shift p (rd_view_at v [] (rd_at file0 p))
+  | None => rd_view_at [49; 46; 50] [RdW_header] file0
   end.
